@@ -26,9 +26,26 @@ def split_runs(events):
     return runs
 
 
-def record(ctx, driver, args, label, runs, seed_offset=0, timeout=1800):
+def panic_in_real_code(o):
+    """Does the crash output of a driver show a Go panic raised inside thor's own code?  Out-of-memory / deadlock dumps
+    ('fatal error:') and panics whose first frame below the runtime is the harness are infrastructure trouble."""
+    if "fatal error:" in o or "panic:" not in o:
+        return False
+    tail = o[o.index("panic:"):]
+    seen = False
+    for line in tail.splitlines():
+        if line.startswith("panic("):
+            seen = True
+            continue
+        if not seen or line.startswith(("\t", " ", "runtime.", "goroutine ")) or not line.strip():
+            continue
+        return "github.com/vechain/thor/v2/" in line
+    return False
+
+
+def record(ctx, driver, args, label, runs, seed_offset=0, timeout=1800, tags="verif"):
     """Run a driver. Returns (list of runs (each a list of events), list of per-run stats, how-dict)."""
-    binp = ctx.build(driver)
+    binp = ctx.build(driver, tags=tags)
     out = ctx.tmp("rec-" + label)
     seed = ctx.seed * 31 + seed_offset
     argv = [binp, "-out", out, "-runs", str(runs), "-seed", str(seed)] + args
@@ -40,7 +57,7 @@ def record(ctx, driver, args, label, runs, seed_offset=0, timeout=1800):
             return [], [], how
         raise Infra("%s harness error: %s" % (driver, o[-1500:]))
     if rc != 0:
-        if rc is not None and ("panic:" in o or "goroutine " in o):
+        if rc is not None and panic_in_real_code(o):
             rp = ctx.save_replay("panic-%s-%d.txt" % (label, seed), " ".join(argv) + "\n" + o[-20000:])
             ctx.report("panic:" + driver, "real code panicked in %s (%s): %s" % (driver, label, o.strip().splitlines()[0:3]), rp)
             return [], [], how
@@ -62,6 +79,8 @@ def signature(ev, invariant):
         if str(ev.get("what", "")).startswith("subscription"):
             return "subscription-fails:%s" % str(ev.get("what")).split()[1]
         return "error:%s" % ev.get("what")
+    if ev.get("e") == "SubExtra":
+        return "subscriber-extra:%s" % ev.get("kind")
     if ev.get("e") == "SubDrain":
         # sameids: the messages name the blocks the driver's own tree arithmetic expects, so only flags can differ
         return "subscriber-diverges:%s%s" % (ev.get("kind"), "-stale-obsolete-flag" if ev.get("sameids") else "")
@@ -105,6 +124,18 @@ def validate_runs(ctx, runs, stats, label, how, batch=None, timeout=1500):
                 raise Infra("trace rejected but offending run not found (hwm=%d len=%d)\n%s" % (hwm, ln, r.out[-2000:]))
             ev = runs[bad][off]
             hdr = runs[bad][0]
+            if ev.get("e") == "Stall" and r.invariant is None:
+                # a websocket subscription delivered nothing for 20 s of wall clock although everything the server had sent
+                # so far was right and a clock-free probe of the reader at that position (the events just before) was
+                # accepted: the machine's trouble, not an observation. The run is set aside.
+                ctx.cov["stalled_runs"] = ctx.cov.get("stalled_runs", 0) + 1
+                ctx.log("run %d of %s set aside: subscription stalled on the wall clock (%s)" % (bad, label, json.dumps(ev)))
+                idx = pending.index(bad)
+                accepted += pending[:idx]
+                ctx.cov["traces_validated_against_impl"] += idx
+                pending = pending[idx + 1:]
+                guard -= 1
+                continue
             if ev.get("e") == "Process" and not ev.get("ok") and r.invariant is None \
                     and not any(k in ev.get("reason", "") for k in TX_REASONS):
                 raise Infra("forged candidate refused for a reason outside the tx admission rules (%s): the forge does "
@@ -142,6 +173,27 @@ def replay(ctx):
     ctx.cov["distinct_nontrivial"] = 0
     ctx.cov["rule"] = "replay of one stored artefact"
     ctx.sample(art.get("offending_event"))
+
+
+def invariant_demo(ctx, run, label):
+    """The path 'an invariant fails on a recorded trace -> the offending event is located -> signature invariant:<name>'
+    must be alive: the recorded run is validated once more with an extra invariant that is false as soon as the tree
+    forks (Trace_ChainIndex_demo.cfg). Nothing is reported; anything but the expected verdict is Infra."""
+    want = next((i for i, e in enumerate(run) if e["e"] == "Add" and e["conflicts"] >= 1), None)
+    if want is None:
+        raise Infra("invariant demonstration: the recorded run never forks")
+    path = os.path.join(ctx.tmp("demo-" + label), "invariant.ndjson")
+    write_ndjson(path, run)
+    ok, hwm, ln, r = ctx.validate_trace(SUB, TRACE, path, cfg="Trace_ChainIndex_demo.cfg", timeout=600)
+    if ok or r.invariant != "DemoNoFork" or hwm != want or signature(run[hwm], r.invariant) != "invariant:DemoNoFork":
+        raise Infra("invariant demonstration failed: accepted=%s invariant=%s located at %s, expected DemoNoFork at %d"
+                    % (ok, r.invariant, hwm, want))
+    ctx.cov["binding_demo"] = ctx.cov.get("binding_demo", []) + ["invariant:DemoNoFork@%d->located@%d" % (want, hwm)]
+
+
+def stalled(ctx):
+    if ctx.cov.get("stalled_runs") and not ctx.violations:
+        raise Infra("%d run(s) set aside because a websocket subscription stalled on the wall clock" % ctx.cov["stalled_runs"])
 
 
 def must_reject(ctx, name, events, label):
@@ -221,6 +273,15 @@ def mut_sub_obsolete(evs):
         if o["obs"]:
             o["obs"] = False
             break
+    return evs, i
+
+
+def mut_reopen(evs):
+    """the re-opened store reports another best block"""
+    i = pick(evs, lambda e: e["e"] == "Reopen" and len(e["heads"]) >= 2, 0.0)
+    if i is None:
+        return None, 0
+    evs[i]["best"] = [h for h in evs[i]["heads"] if h != evs[i]["best"]][0]
     return evs, i
 
 
